@@ -119,6 +119,12 @@ def cases(tier, seed, i, n):
         for r, mech in enumerate(MECHS[:4]):
             if tier == 'thorough' or r % 2 == 0:
                 yield dict(kind='busy-writer', mech=mech)
+        # the abandoned generator sits in a reference cycle (the consumer kept the exception: frame -> traceback ->
+        # frame) and is finalised by the garbage collector - which may start anywhere, also while this very thread
+        # is inside a send on that connection, holding the write lock
+        for k in (2, 3, 4):
+            for call in ('send_text', 'send_ping', 'close'):
+                yield dict(kind='gc-in-write', k=k, call=call)
         reals = [('rst', 3), ('fin', 3), ('text', 1), ('text', 2), ('text', 3), ('text', 4), ('idle', 4), ('idle', 5)]
         for r, (mode, k) in enumerate(reals):
             for mech in MECHS[:4] if tier == 'thorough' else (MECHS[r % 4], MECHS[(r + 1) % 4]):
@@ -198,6 +204,69 @@ def abandon(genf, ws, k, mech, policy=None, world=None):
     return seen
 
 
+def run_gc_in_write(case, acc):
+    w = H.World(H.hs_server([('raw', F(1, b'a') + F(2, b'b'))]), split_send=True, budget=20000)
+    del env.DEADLOCKS[:]
+    gc.disable()
+    try:
+        with simnet.Installed(w):
+            ws = env.WebSocket('ws://example.com/', proxies={})
+            g = ws.connect(session_class=simnet.SimSession, ping_rate=0)
+            seen = []
+            for ev in g:
+                seen.append(ev.name)
+                if len(seen) - 1 == case['k']:
+                    break
+            # abandoned, but only the cyclic collector can get at it
+            cycle = {'gen': g}
+            cycle['self'] = cycle
+            del g, cycle
+            collected = []
+
+            def hook(tag):
+                # the collector runs now: in the middle of the socket write, write lock held by this thread
+                collected.append(gc.collect())
+            w.yield_hook = hook
+            rec = dict(ok=False, exc=None)
+            try:
+                if case['call'] == 'close':
+                    ws.close(1000, 'bye')
+                elif case['call'] == 'send_ping':
+                    ws.send_ping(b'0123456789')
+                else:
+                    ws.send_text('hello hello')
+                rec['ok'] = True
+            except env.lerrors.WebSocketError as e:
+                rec['exc'] = repr(e)
+            w.yield_hook = None
+            gc.collect()
+    except env.SelfDeadlock as e:
+        acc.violation('would-hang:self-deadlock-on-lock:collector-finalises-the-abandoned-loop-inside-a-send',
+                      'C13: abandoned at %d, generator in a cycle, gc during %s' % (case['k'], case['call']), case,
+                      dict(stack=list(env.DEADLOCKS[-1]) if env.DEADLOCKS else None))
+        return
+    finally:
+        gc.enable()
+    acc.count2('oracle', 'abandon_points_checked')
+    acc.count2('oracle', 'gc_inside_write_runs')
+    detail = dict(seen=seen, call=rec, collected=collected, deadlocks=[list(d) for d in env.DEADLOCKS[-2:]],
+                  sockets=[(s.sid, s.closed) for s in w.socks])
+    if not collected:
+        acc.inconclusive.append('gc-in-write: the send never reached the socket write: %r' % (detail,))
+        return
+    key = None
+    if env.DEADLOCKS:
+        # raised inside the finaliser, where the interpreter swallows it: with a real lock the thread hangs there
+        key = 'would-hang:self-deadlock-on-lock:collector-finalises-the-abandoned-loop-inside-a-send'
+    elif any(not s.closed for s in w.socks):
+        key = 'socket-left-open-after-abandon:at-%s:generator-in-a-reference-cycle' % seen[-1]
+    del env.DEADLOCKS[:]
+    if key:
+        acc.violation(key, 'C13 %s: abandoned at %d, gc during %s' % (key, case['k'], case['call']), case, detail)
+    else:
+        acc.cls('gc-in-write/%d/%s' % (case['k'], case['call']))
+
+
 class _FakeRun(object):
     def __init__(self, world, seen):
         self.world = world
@@ -210,6 +279,8 @@ def run_case(case, acc):
         return run_real(case, acc)
     if case['kind'] == 'busy-writer':
         return run_busy_writer(case, acc)
+    if case['kind'] == 'gc-in-write':
+        return run_gc_in_write(case, acc)
     name, k, mech = case['sc'], case['k'], case['mech']
     names, how, end = trace(name)
     w, url, wskw, ckw, pol = make(name)
